@@ -550,6 +550,8 @@ def reshape(self, *newdims, **kwargs):
 
     assert len(newdims_unflattened) == len(set(newdims_unflattened)), "must not contain duplicate axes !"
 
+    # (rename copies: without grouped axes, unflatten returns the array itself)
+    o = o._constructor(o.values, [ax.copy() for ax in o.axes], **o.attrs)
     for ax in o.axes:
         ax.name = ax.name.replace(',',';')
 
